@@ -379,16 +379,16 @@ Definition ejwt_spec_ok (c : ejwt_case) : bool :=
 (* ------------------------------------------------------------------ RPC histories with floods of unknown apps *)
 Inductive rop :=
 | OCall (s : rstep)
-| OFlood (n : N) (app0 token : N) (store : list (N * N)) (code : Z)
+| OFlood (down : bool) (n : N) (app0 token : N) (store : list (N * N)) (code : Z)
 | OBurst (n : N) (s : rstep).     (* n identical calls, all observed with rs_code s *)
-  (* n calls for the fresh apps app0, app0+1, ... (no stored token, healthy store), all observed with this code *)
+  (* n calls for the fresh apps app0, app0+1, ... (no stored token; down: the store fails every lookup), all observed with this code *)
 
 Record rpcf_case := mkrf { rf_strict : bool; rf_ops : list rop }.
 
-Definition flood_step (strict : bool) (store : list (N * N)) (token : N) (code : Z) (st : list (N * N) * bool * N) :=
+Definition flood_step (strict down : bool) (store : list (N * N)) (token : N) (code : Z) (st : list (N * N) * bool * N) :=
   let '(cache, ok, app) := st in
   let '(cache', c) := authenticate strict cache
-                        (fun a => match alookup N.eqb a store with Some t => SVal t | None => SNil end)
+                        (fun a => if down then SFail else match alookup N.eqb a store with Some t => SVal t | None => SNil end)
                         (Some ([app], [token])) in
   (cache', ok && (c =? code), (app + 1)%N).
 
@@ -398,8 +398,8 @@ Fixpoint rpcf_rows (strict : bool) (cache : list (N * N)) (ops : list rop) : boo
   | OCall s :: r =>
       let '(cache', code) := authenticate strict cache (store_of s) (rs_md s) in
       (code =? rs_code s) && rpcf_rows strict cache' r
-  | OFlood n app0 token store code :: r =>
-      let '(cache', ok, _) := N.iter n (flood_step strict store token code) (cache, true, app0) in
+  | OFlood down n app0 token store code :: r =>
+      let '(cache', ok, _) := N.iter n (flood_step strict down store token code) (cache, true, app0) in
       ok && rpcf_rows strict cache' r
   | OBurst n s :: r =>
       let '(cache', ok) := N.iter n (fun st => let '(cache', code) := authenticate strict (fst st) (store_of s) (rs_md s) in
@@ -409,9 +409,9 @@ Fixpoint rpcf_rows (strict : bool) (cache : list (N * N)) (ops : list rop) : boo
 
 Definition rpcf_model_ok (c : rpcf_case) : bool := rpcf_rows (rf_strict c) [] (rf_ops c).
 
-Definition flood_spec_step (strict : bool) (store : list (N * N)) (token : N) (code : Z) (st : list (N * N) * bool * N) :=
+Definition flood_spec_step (strict down : bool) (store : list (N * N)) (token : N) (code : Z) (st : list (N * N) * bool * N) :=
   let '(memo, ok, app) := st in
-  let stv := match alookup N.eqb app store with Some t => StTok t | None => StNone end in
+  let stv := if down then StFail else match alookup N.eqb app store with Some t => StTok t | None => StNone end in
   (rpc_memo memo stv app, ok && Bool.eqb (code =? 0) (rpc_accept strict true (rpc_view memo stv app) token), (app + 1)%N).
 
 Fixpoint rpcf_spec_rows (strict : bool) (memo : list (N * N)) (ops : list rop) : bool :=
@@ -425,8 +425,8 @@ Fixpoint rpcf_spec_rows (strict : bool) (memo : list (N * N)) (ops : list rop) :
           Bool.eqb (rs_code s =? 0) (rpc_accept strict true (rpc_view memo st app) token) &&
           rpcf_spec_rows strict (rpc_memo memo st app) r
       end
-  | OFlood n app0 token store code :: r =>
-      let '(memo', ok, _) := N.iter n (flood_spec_step strict store token code) (memo, true, app0) in
+  | OFlood down n app0 token store code :: r =>
+      let '(memo', ok, _) := N.iter n (flood_spec_step strict down store token code) (memo, true, app0) in
       ok && rpcf_spec_rows strict memo' r
   | OBurst n s :: r =>
       (* a burst is n copies of one call: same verdict each time (the first one decides the memo) *)
